@@ -19,8 +19,9 @@ RULE = ("for random (token, key, nonce) triples (key/token offered as bytes or h
         "put nothing but handshake requests carrying the offered token on the wire, and leave the session unauthenticated (the next "
         "exchange starts with a handshake or sends nothing). Session histories on one object: after a genuine authentication, a second authenticate - on the live session or after the 12 h lifetime passed - that is answered with an altered reply, an error packet, or is called with a wrong key must fail the same way, and an expired session must then stay unauthenticated. Header/counter flips that leave the 64 proof bytes intact may also succeed, "
         "then with equal keys. distinct = (triple id, alteration); all non-trivial")
-ASSUMPTIONS = ["a failed re-authentication on a still-authenticated live connection is not judged here (see C07 notes); prior credentials are "
-               "tested across a connection the peer closed",
+ASSUMPTIONS = ["a failed re-authentication on a still-authenticated LIVE connection is judged for exception class, wire discipline and stored "
+               "credentials, but not for 'the session stays unauthenticated' (the earlier session is still valid); that clause is judged "
+               "for fresh, peer-closed and expired sessions",
                "framing-level header flips (marker/size) may end in a timeout, which Device.authenticate must still map to AuthenticationError"]
 ANCHORS = ["lan.py:_LanProtocolV3._get_local_key", "lan.py:_LanProtocolV3.authenticate", "lan.py:LAN.authenticate",
            "base_device.py:Device.authenticate"]
